@@ -41,7 +41,7 @@ Theorem C09_dial_answered : forall s t n i, tlookup (thr s) t = Some (DialWait n
 Proof. exact (dial_answered gen_mux_params). Qed.
 
 (* no cycle of goroutines waiting for each other's mutexes, anywhere in the package: the pairs (held, wanted) extracted from
-   the source on this run (direct nesting and synchronous calls, transitively) admit the numbering extracted with them,
+   the source on this run (direct nesting and synchronous calls, transitively) allow the numbering extracted with them,
    which Coq re-checks here; a mutex locked again while held would be an edge from a lock to itself *)
 Lemma facts_lock_order : ranks_ok lock_order_edges lock_ranks = true. Proof. reflexivity. Qed.
 
